@@ -1,12 +1,12 @@
 import UtilModel.Routine.Props
 open UtilModel UtilModel.Routine
 #print axioms UtilModel.accepts_sound
+#print axioms UtilModel.Routine.step_allQ
 #print axioms UtilModel.Routine.rerun_only_by
 #print axioms UtilModel.Routine.error_rerun_only_by
-#print axioms UtilModel.Routine.success_not_rerun_partial
-#print axioms UtilModel.Routine.success_not_rerun_full_false
+#print axioms UtilModel.Routine.success_not_rerun
 #print axioms UtilModel.Routine.retry_armed
+#print axioms UtilModel.Routine.retry_kept
 #print axioms UtilModel.Routine.exit_cb_once
 #print axioms UtilModel.Routine.record_once
 #print axioms UtilModel.Routine.waitExited_current
-#print axioms UtilModel.Routine.retry_kept_full_false
